@@ -1628,7 +1628,7 @@ pub proof fn lemma_tail_uri(u: Seq<u8>, i: int, multi: bool, cfg: HCfg, cap: int
     lemma_first_not_char(cls_uri(), u, i, i + 1);
     assert(u.subrange(i, i + 1) =~= seq![0x2fu8]);
     assert(all_ascii(seq![0x2fu8]));
-    axiom_ascii_is_utf8(seq![0x2fu8]);
+    lemma_ascii_is_utf8(seq![0x2fu8]);
     assert(t_uri().subrange(2, t_uri().len() as int) =~= t_ver());
     assert(u.subrange(i + 2, u.len() as int) =~= u.subrange(i, u.len() as int).subrange(2, t_uri().len() as int));
     lemma_tail_ver(u, i + 2, multi, cfg, cap);
